@@ -30,7 +30,7 @@ func (g *Group) isNull(f *File) bool {
 
 func (g *Group) isNullItems(f *File) bool {
 	for _, c := range g.items {
-		if !c.isNull(f) {
+		if c != nil && !c.isNull(f) {
 			return false
 		}
 	}
